@@ -269,8 +269,11 @@ impl Sched {
         let is_write = match op.kind {
             OpKind::Load => false,
             OpKind::CompareExchange | OpKind::CompareExchangeWeak => ok,
+            // a swap / store that leaves the value as it was (a spin lock found taken) changes nothing
+            OpKind::Swap => result != op.a,
             _ => true,
         };
+        let ok = ok && !(op.kind == OpKind::Swap && result == op.a && op.a != 0);
         if is_write {
             g.global_writes += 1;
             for th in g.threads.iter_mut() {
